@@ -14,7 +14,11 @@
 namespace nk {
 static Units& i8_units(bool thorough) {
   static Units q, t; static bool init = false;
-  if (!init) { init = true; i8_register_signed(q, t); i8_register_unsigned(q, t); }
+  if (!init) { init = true; 
+#define NK_CALL(P) i8_register_##P(q, t);
+    NK_I8_PARTS(NK_CALL)
+#undef NK_CALL
+   }
   static Units all; static bool init2 = false;
   if (!init2) { init2 = true; all = q; all.insert(all.end(), t.begin(), t.end()); }
   return thorough ? all : q;
